@@ -11,8 +11,12 @@ Word(M) == [locked : BOOLEAN, ins : BOOLEAN, spl : BOOLEAN, deleted : BOOLEAN, r
             vi : 0..(M-1), vs : 0..(M-1)]
 \* ---------------------------------------------------------------- sequential meaning (C17, first sentence)
 LockF(v) == [v EXCEPT !.locked = TRUE]
+\* UNLOCK_ELSE_IF is a defect switch (a definition, overridden by MC_Version_bug1.cfg with SwitchOn): "split, or else insert" -
+\* with both dirty bits set (an insert that splits the node) the insert counter does not advance (independent seeded change C17d).
+UNLOCK_ELSE_IF == FALSE
+SwitchOn == TRUE
 UnlockF(v, M) == [v EXCEPT !.locked = FALSE, !.ins = FALSE, !.spl = FALSE,
-                           !.vi = IF v.ins THEN (v.vi + 1) % M ELSE v.vi,
+                           !.vi = IF v.ins /\ ~(UNLOCK_ELSE_IF /\ v.spl) THEN (v.vi + 1) % M ELSE v.vi,
                            !.vs = IF v.spl THEN (v.vs + 1) % M ELSE v.vs]
 IncViF(v, M) == [v EXCEPT !.vi = (v.vi + 1) % M]
 SetF(v, flag, b) == CASE flag = "ins" -> [v EXCEPT !.ins = b]
